@@ -413,6 +413,20 @@ impl Driver {
         Value::Array(clauses)
     }
 
+    /// Sometimes spells a policy with the broadcast "*" as an operand: `P || *` and `(*) || P` mean "*",
+    /// `P && *` means P. Returns (DNF the trace specification reasons with, string for the real parser).
+    fn star_variant(&self, rng: &mut Rng, pol: Value) -> (Value, Option<String>) {
+        if pol == json!([[]]) || !rng.chance(1, 12) {
+            return (pol, None);
+        }
+        let src = crate::world::dnf_to_src(&pol);
+        match rng.below(3) {
+            0 => (json!([[]]), Some(format!("({src}) || *"))),
+            1 => (json!([[]]), Some(format!("(*) || ({src})"))),
+            _ => (pol, Some(format!("({src}) && *"))),
+        }
+    }
+
     fn fresh_name(&mut self) -> String {
         self.n_name += 1;
         format!("n{}", self.n_name)
@@ -572,7 +586,15 @@ impl Driver {
                 }
                 "update" => json!({"op": "update"}),
                 "mpk" => json!({"op": "mpk"}),
-                "rekey" | "prune" => json!({"op": kind, "pol": self.rand_policy(&mut rng, p, false)}),
+                "rekey" | "prune" => {
+                    let pol = self.rand_policy(&mut rng, p, false);
+                    let (pol, src) = self.star_variant(&mut rng, pol);
+                    let mut op = json!({"op": kind, "pol": pol});
+                    if let Some(src) = src {
+                        op["src"] = json!(src);
+                    }
+                    op
+                }
                 "keygen" => {
                     if users.len() >= p.users {
                         // replace a key
@@ -580,7 +602,13 @@ impl Driver {
                         self.step(&json!({"op": "drop_usk", "u": u}));
                     }
                     self.n_user += 1;
-                    json!({"op": "keygen", "u": format!("u{}", self.n_user), "pol": self.rand_policy(&mut rng, p, false)})
+                    let pol = self.rand_policy(&mut rng, p, false);
+                    let (pol, src) = self.star_variant(&mut rng, pol);
+                    let mut op = json!({"op": "keygen", "u": format!("u{}", self.n_user), "pol": pol});
+                    if let Some(src) = src {
+                        op["src"] = json!(src);
+                    }
+                    op
                 }
                 "refresh" => match rng.pick(&users) {
                     Some(u) => json!({"op": "refresh", "u": u, "keep": rng.chance(1, 2)}),
@@ -604,7 +632,13 @@ impl Driver {
                     let k = if rng.chance(2, 3) { nmpk } else { 1 + rng.below(nmpk) };
                     // the policy is drawn over the current structure; older
                     // public keys may not know it, which is part of the test
-                    json!({"op": "encaps", "e": format!("e{}", self.n_enc), "mpk": k, "pol": self.rand_policy(&mut rng, p, true)})
+                    let pol = self.rand_policy(&mut rng, p, true);
+                    let (pol, src) = self.star_variant(&mut rng, pol);
+                    let mut op = json!({"op": "encaps", "e": format!("e{}", self.n_enc), "mpk": k, "pol": pol});
+                    if let Some(src) = src {
+                        op["src"] = json!(src);
+                    }
+                    op
                 }
                 "swap_attr" => {
                     // replace the most recently created attribute by a new one with the opposite hint,
